@@ -61,7 +61,7 @@ func init() {
 	reg("C02", &propCfg{Test: "TestC02", Quick: 2000, Thorough: 40000})
 	reg("C03", &propCfg{Test: "TestC03", Quick: 320, Thorough: 6000})
 	reg("C04", &propCfg{Test: "TestC04", Quick: 2000, Thorough: 40000})
-	reg("C05", &propCfg{Test: "TestC05", Quick: 160, Thorough: 3000, Level: "fault_enumeration",
+	reg("C05", &propCfg{Test: "TestC05", Quick: 240, Thorough: 4800, Level: "fault_enumeration",
 		Assumptions: []string{"crash model: un-synced writes reach the disk as any subset of 4096-byte blocks, file length anywhere between the synced length and the highest applied block, directory operations ordered and durable; with NoSync process-kill only"}})
 	reg("C06", &propCfg{Test: "TestC06", Quick: 96, Thorough: 1000, Level: "fault_enumeration"})
 	reg("C07", &propCfg{Test: "TestC07", Quick: 1500, Thorough: 30000})
